@@ -179,7 +179,14 @@ impl Lowerer<'_> {
             TyRef::U8,
             Value::Discriminant(examinee.clone()),
         );
-        let default_branch = if !default_branches.is_empty() {
+        // The default case is only reachable if there is a variant that
+        // does not occur in any pattern. In that case the type checker has
+        // ensured that there is an unguarded `_` arm to end up in. Otherwise,
+        // a chain of only guarded `_` arms would have nowhere to go when all
+        // guards fail, so we must not generate it.
+        let needs_default_case = !default_branches.is_empty()
+            && all_discriminants.len() < variants.len();
+        let default_branch = if needs_default_case {
             Some(default_lbl)
         } else {
             None
@@ -212,7 +219,7 @@ impl Lowerer<'_> {
             );
         }
 
-        if !default_branches.is_empty() {
+        if needs_default_case {
             self.match_case(
                 examinee,
                 examinee_ty_ref,
